@@ -3,7 +3,7 @@ WorkflowState.get_task_sequence on a two-route history (a -> b -> c on routes 0 
 with-items variant.  BOUNDED shape; statuses, term flags and item statuses symbolic."""
 import z3
 
-from orquesta import conducting, exceptions as exc, requests
+from orquesta import conducting, constants, exceptions as exc, requests
 from orquesta.utils import jsonify as json_util
 from contracts import specconst as st
 
@@ -293,3 +293,93 @@ class RerunRejects(Unit):
             ctx.canary()
 
         ctx.eng.explore(thunk)
+
+
+# ================================================================================================
+# get_task_sequence / _collapse_task_rerun_requests against their specification functions
+# ================================================================================================
+def _spec_descendants(sequence, idx):
+    """record idx, then the records that followed an execution of the same task on the same route
+    (a task is identified by id and route: in a loop every iteration's successors count), transitively"""
+    seen, todo = [idx], [(sequence[idx]["id"], sequence[idx]["route"])]
+    done = set()
+    while todo:
+        key = todo.pop(0)
+        if key in done:
+            continue
+        done.add(key)
+        for i, t in enumerate(sequence):
+            if any((sequence[p]["id"], sequence[p]["route"]) == key for p in t["prev"].values()):
+                if i not in seen:
+                    seen.append(i)
+                todo.append((t["id"], t["route"]))
+    return seen
+
+
+def _spec_collapse(sequence, req_idx):
+    """req_idx: {key: record index}.  A request is kept unless its record follows from another
+    requested record; of two that follow from each other (a loop) the earlier record is kept."""
+    desc = {k: set(_spec_descendants(sequence, i)) - {i} for k, i in req_idx.items()}
+    keep = {}
+    for k, i in req_idx.items():
+        dropped = any(i in desc[k2] and (i2 not in desc[k] or i2 < i) for k2, i2 in req_idx.items() if k2 != k)
+        if not dropped:
+            keep[k] = i
+    return keep
+
+
+def _histories():
+    """small execution histories (id, route, prev) in the shape update_task_state leaves them"""
+    def rec(tid, prev, route=0):
+        return {"id": tid, "route": route, "ctxs": {"in": [0]}, "prev": dict(prev), "next": {}, "status": st.SUCCEEDED}
+    out = {}
+    out["chain"] = [rec("a", {}), rec("b", {"a__t0": 0}), rec("c", {"b__t0": 1}), rec("d", {"c__t0": 2})]
+    out["fork"] = [rec("a", {}), rec("b", {"a__t0": 0}), rec("x", {}), rec("c", {"a__t0": 0}), rec("d", {"b__t0": 1, "c__t0": 3})]
+    out["loop"] = [rec("i", {}), rec("a", {"i__t0": 0}), rec("b", {"a__t0": 1}), rec("a", {"b__t0": 2})]
+    out["diamond+tail"] = [rec("a", {}), rec("b", {"a__t0": 0}), rec("c", {"a__t0": 0}), rec("j", {"b__t0": 1, "c__t0": 2}),
+                           rec("k", {"j__t0": 3}), rec("y", {})]
+    return out
+
+
+class RerunSequences(Unit):
+    bounded = True
+    name = "C.rerun_sequences"
+    functions = ["orquesta.conducting.WorkflowState.get_task_sequence",
+                 "orquesta.conducting.WorkflowConductor._collapse_task_rerun_requests"]
+    obligations = {
+        "C17.rerun.sequence_transitive": {"props": ["C17"], "text":
+            "get_task_sequence(task, route) is the latest record of that task followed by exactly the records that followed an execution of that task on that route through any number of back references (not only the direct successors), each once"},
+        "C17.rerun.collapse": {"props": ["C17", "C03"], "text":
+            "of the requested task executions exactly those are kept that do not follow from another requested one - whatever other requests are present; of two that follow from each other (a loop) the earlier is kept, so an accepted request never collapses to nothing"},
+    }
+    assumptions = ["BOUNDED: four histories (chain of 4, fork with an unrelated task, loop, diamond with tail), every task as start, every subset of 1-3 requests; native differential against the specification functions in this file"]
+    trusted = ["CPython"]
+
+    def run_split(self, ctx, split):
+        import itertools
+        from orquesta import requests as rq
+
+        def thunk(e):
+            for name, seq in _histories().items():
+                tasks = {}
+                for i, t in enumerate(seq):
+                    tasks[constants.TASK_STATE_ROUTE_FORMAT % (t["id"], str(t["route"]))] = i
+                c, ws = cbase.new_conductor(st.FAILED, sequence=seq, tasks=tasks)
+                for key, idx in tasks.items():
+                    got = ws.get_task_sequence(seq[idx]["id"], seq[idx]["route"])
+                    got_idx = [i for i, _ in got]
+                    want = _spec_descendants(seq, idx)
+                    ok = got_idx[:1] == [idx] and sorted(got_idx) == sorted(want) and all(seq[i] is t for i, t in got)
+                    ctx.oblige("C17.rerun.sequence_transitive", ok, {"history": name, "task": key},
+                               {"history": name, "task": key, "got": got_idx, "expected_set": sorted(want)})
+                keys = sorted(tasks)
+                for n in (1, 2, 3):
+                    for combo in itertools.combinations(keys, n):
+                        reqs = {k: rq.TaskRerunRequest.new(seq[tasks[k]]["id"], seq[tasks[k]]["route"]) for k in combo}
+                        got = c._collapse_task_rerun_requests(reqs)
+                        want = _spec_collapse(seq, {k: tasks[k] for k in combo})
+                        ctx.oblige("C17.rerun.collapse", sorted(got) == sorted(want) and bool(got), {"history": name, "requests": list(combo)},
+                                   {"history": name, "requests": list(combo), "kept": sorted(got), "expected": sorted(want)})
+            ctx.canary()
+        ctx.eng.explore(thunk)
+        ctx.bounded.append({"unit": self.name, "bound": "4 histories, <=3 requests"})
